@@ -205,6 +205,7 @@ int Broker::emit(BConn& c, Packet p, ns_t delay, int reply_to, int msg, bool hos
     s.idx = (int)sent.size(); s.conn = c.conn; s.reply_to = reply_to; s.msg = msg; s.hostile = hostile;
     bool withhold = false, hostile_reply = false; int cut = -1, hk = 0;
     bool killed = apply_pfaults(PfWhen::on_emit, c, p, delay, withhold, cut, hostile_reply, hk);
+    if (p.type == PUBREL && !hostile) { if (c.pubrel_blocked && !healed) withhold = true; else if (withhold) c.pubrel_blocked = true; }
     if (killed || withhold) {
         if (withhold && reply_to >= 0) ++c.unanswered;
         return -1;
@@ -224,13 +225,13 @@ int Broker::emit(BConn& c, Packet p, ns_t delay, int reply_to, int msg, bool hos
     if ((knobs.hostile && hostile_window && r.chance(knobs.hostile_p)) || hostile_reply) {
         std::string desc;
         auto hr = rng_for(c.conn, "hostile", emit_counter_);
-        s.raw = hostile_mutation(s.raw, hr, hostile_reply ? hk : -1, &desc);
-        s.hostile = true;
-        w.count("hostile." + desc);
+        std::string mutated = hostile_mutation(s.raw, hr, hostile_reply ? hk : -1, &desc);
+        if (mutated != s.raw) { s.raw = mutated; s.hostile = true; w.count("hostile." + desc); }
     }
     // re-decode what actually goes out so that oracles see wire truth (short forms etc.)
     s.pkt = p;
     s.pkt.raw = s.raw;
+    s.idx = (int)sent.size();        // a fault action above may itself have emitted a packet
     sent.push_back(s);
     int sidx = s.idx;
     c.sent.push_back(sidx);
@@ -254,6 +255,7 @@ void Broker::do_emit(int conn, int sidx, int cut) {
     s.off_begin = nc->b2c_emitted;
     std::string bytes = s.raw;
     if (cut >= 0 && (size_t)cut < bytes.size()) bytes.resize(cut);
+    s.emitted_len = bytes.size();
     s.off_end = (cut >= 0 && (size_t)cut < s.raw.size()) ? 0 : s.off_begin + bytes.size();   // a cut packet is never "delivered"
     if (s.hostile) c->hostile_touched = true;
     // C07: release the identifier at the earliest possible moment - emission of the final ack
@@ -537,7 +539,7 @@ void Broker::handle(BConn& c, int ridx) {
         return;
     }
     if (c.phase != BConn::established) return;
-    if (c.ping_silent && !healed) return;
+    if (c.ping_silent && !healed) { withhold = true; c.withheld_any = true; }   // a silent broker still keeps its own state
 
     auto r = rng_for(c.conn, "handle", (uint64_t)ridx);
     auto err = [&](std::initializer_list<int> codes) -> uint8_t { return (uint8_t)*(codes.begin() + r.below(codes.size())); };
